@@ -479,6 +479,7 @@ fn run_history(case: &str, ops: &[Op], out: &mut Out, stats: &mut Stats) -> Stri
 /// the law symbolically for every length)
 fn long_history(table: &str, n: usize, out: &mut Out, stats: &mut Stats) {
     let case = format!("long-{}", table);
+    out.oracle_case(&format!("{} {}", case, n));
     let mut xot = Xot::new();
     let mut seen: HashMap<u64, String> = HashMap::new();
     let r = guard(|| {
@@ -524,6 +525,11 @@ fn main() {
     if let Some(path) = &a.replay {
         let text = std::fs::read_to_string(path).expect("replay file");
         for line in text.lines().filter(|l| !l.trim().is_empty()) {
+            if let Some(rest) = line.strip_prefix("long-") {
+                let (table, n) = rest.split_once(' ').unwrap();
+                long_history(table, n.parse().unwrap(), &mut out, &mut stats);
+                continue;
+            }
             let (case, ops) = parse_case(line);
             out.case(line);
             let o = run_history(&case, &ops, &mut out, &mut stats);
@@ -549,6 +555,7 @@ fn main() {
             stats.case(&line, regs >= 1);
             let mut sink = String::new();
             std::mem::swap(&mut sink, &mut String::new());
+            out.oracle_case(&line);
             let _ = run_history(&case, &ops, &mut out, &mut stats);
             continue;
         }
